@@ -463,6 +463,44 @@ fn build_types() -> Vec<u16> {
     vec![w::T_A, w::T_NS, w::T_CNAME, w::T_SOA, w::T_PTR, w::T_MX, w::T_TXT, w::T_AAAA, w::T_HINFO, w::T_SRV, w::T_RP, w::T_DNAME, w::T_DS, w::T_DNSKEY, w::T_NSEC3PARAM, 65280]
 }
 
+/// Like `build_new`, but names go through the `Name` (not `RevName`) compression path.
+fn build_new_fwd(items: &[ModelItem], bufsize: usize, id: u16) -> (Vec<u8>, Vec<bool>) {
+    use domain::new::base::name::Name as NewName;
+    use domain::new::base::ParseRecordDataBytes;
+    let mut buffer = vec![0u8; bufsize.max(12)];
+    let mut comp = NameCompressor::default();
+    let mut accepted = Vec::new();
+    let len;
+    {
+        let mut b = NewBuilder::new(&mut buffer, &mut comp, U16::new(id), *HeaderFlags::default().set_qr(true));
+        for it in items {
+            let owner: &NewName = <&NewName>::parse_bytes(&it.owner).expect("harness: valid owner");
+            let ok = if it.section == 0 {
+                b.push_question(&NewQuestion { qname: owner, qtype: QType { code: U16::new(it.rtype) }, qclass: QClass { code: U16::new(it.class) } }).is_ok()
+            } else {
+                let wire = w::compose_fields(&it.fs);
+                let rd: NewRecordData<'_, &NewName> = match NewRecordData::parse_record_data_bytes(&wire, RType { code: U16::new(it.rtype) }) {
+                    Ok(r) => r,
+                    Err(_) => {
+                        accepted.push(false);
+                        continue;
+                    }
+                };
+                let rec = NewRecord { rname: owner, rtype: RType { code: U16::new(it.rtype) }, rclass: RClass { code: U16::new(it.class) }, ttl: TTL { value: U32::new(it.ttl) }, rdata: rd };
+                match it.section {
+                    1 => b.push_answer(&rec).is_ok(),
+                    2 => b.push_authority(&rec).is_ok(),
+                    _ => b.push_additional(&rec).is_ok(),
+                }
+            };
+            accepted.push(ok);
+        }
+        len = b.finish().as_bytes().len();
+    }
+    buffer.truncate(len);
+    (buffer, accepted)
+}
+
 fn build_new(items: &[ModelItem], bufsize: usize, id: u16) -> (Vec<u8>, Vec<bool>) {
     let mut buffer = vec![0u8; bufsize.max(12)];
     let mut comp = NameCompressor::default();
@@ -600,7 +638,7 @@ fn build_one(c: &mut Ctx, fam: &str, idx: u64, rng: &mut Rng) {
     let ex = || json!({"size_class": size_class, "bufsize": bufsize, "items": items.iter().map(|i| json!({"section": i.section, "owner": w::name_text(&i.owner), "type": i.rtype, "rdata": hex(&w::compose_fields(&i.fs)[..w::compose_fields(&i.fs).len().min(24)])})).collect::<Vec<_>>()});
     let res = ctx::catch(|| {
         step("new::MessageBuilder");
-        let (nb, nacc) = build_new(&items, bufsize, id);
+        let (nb, nacc) = if idx % 8 >= 4 { build_new_fwd(&items, bufsize, id) } else { build_new(&items, bufsize, id) };
         step("old::MessageBuilder");
         let (ob, oacc) = build_old(&items, bufsize, id);
         (nb, nacc, ob, oacc)
